@@ -91,6 +91,9 @@ func TestVerif_C17(t *testing.T) {
 		vfC17Refused(rec, ep)
 		vfC17CloseInFlight(rec, ep)
 	}
+	for ep := 0; ep < evid.Pick(10, 300) && rec.Violations() < 30; ep++ {
+		vfC17CloseUnderLoad(rec, ep)
+	}
 	// every server of this run has been stopped: no accept / connection / cleanup goroutine may remain
 	left := vfAbsnfsGoroutines("acceptLoop", "handleConnectionLoop", "idleConnectionCleanupLoop")
 	if len(left) > 0 {
@@ -542,6 +545,151 @@ func vfC17CloseInFlight(rec *evid.Rec, ep int) {
 		rec.Violate("C17/state-left-after-"+how+"-with-request-in-flight", fmt.Sprintf("a LOOKUP was being served when %s() was called; after it returned: handles=%d attr-cache=%d dir-cache=%d", how, h, a, d), nil)
 	}
 	rec.Distinct("shutdown-with-request-in-flight|" + how)
+	if how == "Unexport" {
+		n.Close()
+	}
+}
+
+// vfC17CloseUnderLoad: several connections keep looking up fresh names (each reply allocates a
+// handle and fills the attribute cache; the backend is slowed a little so that requests are in
+// flight at any moment) while Close / Unexport runs. Whatever the interleaving, once the call has
+// returned and every client has been hung up on, no handle and no cache entry may be left: a
+// request may not be served after the handles were released.
+func vfC17CloseUnderLoad(rec *evid.Rec, ep int) {
+	how := []string{"Close", "Unexport"}[ep%2]
+	rng := evid.Rng(1717, int64(ep))
+	fs := refs.New()
+	const nfiles = 240
+	for i := 0; i < nfiles; i++ {
+		fs.PlantFile(fmt.Sprintf("/h%03d", i), []byte("x"), 0644, 0, 0)
+	}
+	n, err := New(fs, ExportOptions{AttrCacheTimeout: time.Hour, EnableDirCache: true, MaxWorkers: 1 + rng.Intn(4)})
+	if err != nil {
+		rec.Infra(err.Error())
+		return
+	}
+	vfQuiet(n)
+	if err := n.Export("/", 0); err != nil {
+		rec.Infra(err.Error())
+		return
+	}
+	n.exportServer.logger.SetOutput(io.Discard)
+	port := n.exportServer.GetPort()
+	var hc atomic.Int64
+	slow := time.Duration(50+rng.Intn(400)) * time.Microsecond
+	fs.SetHook(func(op *refs.Op, ph refs.Phase) error {
+		if ph == refs.Before && op.Name == "Lstat" && strings.HasPrefix(op.Path, "/h") {
+			if hc.Add(1)%3 != 0 {
+				time.Sleep(slow)
+			} else {
+				runtime.Gosched()
+			}
+		}
+		return nil
+	})
+	nclients := 3 + rng.Intn(6)
+	var replies atomic.Int64
+	var maxLatency atomic.Int64
+	var wg sync.WaitGroup
+	setup := make(chan bool, nclients)
+	for k := 0; k < nclients; k++ {
+		wg.Add(1)
+		go func(k int) {
+			defer wg.Done()
+			conn, err := vfDialRM(port)
+			if err != nil {
+				setup <- false
+				return
+			}
+			defer conn.c.Close()
+			raw, closed, err := conn.call(vfProgMount, 1, (&xdrw.W{}).Str("/").B)
+			if err != nil || closed {
+				setup <- false
+				return
+			}
+			rep, derr := rfc.DecodeReply(raw)
+			if derr != nil {
+				setup <- false
+				return
+			}
+			m, _ := rfc.DecodeMount(1, rep.Body)
+			if m == nil {
+				setup <- false
+				return
+			}
+			root := vfFH(m.FH)
+			setup <- true
+			for i := 0; ; i++ {
+				t0 := time.Now()
+				_, closed, err := conn.call(vfProgNFS, 3, xdrw.ArgDirop(root, fmt.Sprintf("h%03d", (k*40+i)%nfiles)))
+				if d := int64(time.Since(t0)); d > maxLatency.Load() {
+					maxLatency.Store(d)
+				}
+				if err != nil || closed {
+					return
+				}
+				replies.Add(1)
+			}
+		}(k)
+	}
+	okc := 0
+	for k := 0; k < nclients; k++ {
+		if <-setup {
+			okc++
+		}
+	}
+	// wait (bounded) until the load is really running
+	for d := time.Now().Add(20 * time.Second); replies.Load() < int64(10*okc) && time.Now().Before(d); {
+		runtime.Gosched()
+	}
+	if okc == 0 || replies.Load() < int64(10*okc) {
+		rec.Inconclusive(1)
+		n.Close()
+		wg.Wait()
+		return
+	}
+	for y := rng.Intn(200); y > 0; y-- {
+		runtime.Gosched()
+	}
+	done := make(chan struct{})
+	go func() {
+		defer close(done)
+		if how == "Close" {
+			n.Close()
+		} else {
+			n.Unexport()
+		}
+	}()
+	select {
+	case <-done:
+	case <-time.After(40 * time.Second):
+		rec.Inconclusive(1)
+		return
+	}
+	cdone := make(chan struct{})
+	go func() { wg.Wait(); close(cdone) }()
+	select {
+	case <-cdone:
+	case <-time.After(40 * time.Second):
+		rec.Violate("C17/connection-still-served-after-"+how, fmt.Sprintf("%d s after %s() returned a client connection is still open and answered", 40, how), nil)
+		return
+	}
+	// let a request goroutine that outlives the shutdown call finish its bookkeeping
+	for d := time.Now().Add(3 * time.Second); time.Now().Before(d); {
+		if n.policyRWMu.TryLock() {
+			n.policyRWMu.Unlock()
+			break
+		}
+		runtime.Gosched()
+	}
+	rec.Eval(int(replies.Load()))
+	if time.Duration(maxLatency.Load()) > 2*time.Second {
+		// Stop gives connection goroutines 5 s: on a machine this slow the outcome says nothing
+		rec.Inconclusive(1)
+	} else if h, a, d := n.fileMap.Count(), n.attrCache.Size(), n.dirCache.Size(); h != 0 || a != 0 || d != 0 {
+		rec.Violate("C17/state-left-after-"+how+"-under-load", fmt.Sprintf("%d connections were looking up fresh names while %s() ran (%d replies in all); after it returned and every connection was closed: handles=%d attr-cache=%d dir-cache=%d", okc, how, replies.Load(), h, a, d), map[string]any{"episode": ep, "clients": okc})
+	}
+	rec.Distinct(fmt.Sprintf("shutdown-under-load|%s|clients=%d", how, okc))
 	if how == "Unexport" {
 		n.Close()
 	}
